@@ -23,6 +23,7 @@ import (
 	"sort"
 	"strings"
 	"sync"
+	"syscall"
 
 	gregexp "github.com/grafana/regexp"
 	"github.com/sourcegraph/zoekt"
@@ -41,9 +42,64 @@ func init() {
 }
 
 type tombReq struct {
-	Shard string
-	ID    uint32
-	Set   bool
+	Op      string // "" = set/unset a tombstone; "load" = open the shard and load it
+	Shard   string
+	ID      uint32
+	Set     bool
+	Exhaust bool // load: no file descriptor is available while the metadata is parsed (the sidecar cannot be opened)
+}
+
+type loadReply struct {
+	Err    string
+	Repos  []*zoekt.Repository // metadata as parsed (index.ReadMetadata)
+	Listed []uint32            // IDs returned by List(Const true) of the loaded searcher
+	Files  [][2]string         // (repository, file) returned by Search(Const true)
+}
+
+// childLoad opens the shard the way search.loadShard does and then parses its metadata / loads it while (Exhaust) the
+// process cannot open another file: the sidecar is intact on disk but momentarily unreadable (EMFILE).
+func childLoad(r tombReq) loadReply {
+	f, err := os.Open(r.Shard)
+	if err != nil {
+		return loadReply{Err: "open: " + err.Error()}
+	}
+	inf, err := index.NewIndexFile(f)
+	if err != nil {
+		f.Close()
+		return loadReply{Err: "mmap: " + err.Error()}
+	}
+	var old syscall.Rlimit
+	if r.Exhaust {
+		syscall.Getrlimit(syscall.RLIMIT_NOFILE, &old)
+		syscall.Setrlimit(syscall.RLIMIT_NOFILE, &syscall.Rlimit{Cur: 0, Max: old.Max})
+	}
+	repos, _, merr := index.ReadMetadata(inf)
+	s, serr := index.NewSearcher(inf)
+	if r.Exhaust {
+		syscall.Setrlimit(syscall.RLIMIT_NOFILE, &old)
+	}
+	if merr != nil || serr != nil {
+		if serr == nil {
+			s.Close()
+		} else {
+			inf.Close()
+		}
+		return loadReply{Err: fmt.Sprintf("metadata: %v; searcher: %v", merr, serr)}
+	}
+	defer s.Close()
+	rep := loadReply{Repos: repos}
+	ctx := context.Background()
+	if rl, err := s.List(ctx, &query.Const{Value: true}, nil); err == nil {
+		for _, e := range rl.Repos {
+			rep.Listed = append(rep.Listed, e.Repository.ID)
+		}
+	}
+	if res, err := s.Search(ctx, &query.Const{Value: true}, &zoekt.SearchOptions{}); err == nil {
+		for _, fm := range res.Files {
+			rep.Files = append(rep.Files, [2]string{fm.Repository, fm.FileName})
+		}
+	}
+	return rep
 }
 
 func childMain() {
@@ -51,6 +107,9 @@ func childMain() {
 		var r tombReq
 		if err := json.Unmarshal(req, &r); err != nil {
 			return map[string]string{"err": "bad request"}
+		}
+		if r.Op == "load" {
+			return childLoad(r)
 		}
 		var err error
 		if r.Set {
@@ -514,6 +573,88 @@ type runner struct {
 	files    interner
 	docOrder map[string][]cdoc
 	worker   int
+	probe    *f1util.Session                // a child without injected faults, for the load probes
+	embedded map[string][]*zoekt.Repository // shard -> the repository metadata embedded in the shard file
+}
+
+// probeLoad (re)loads a shard in the probe child — with `exhaust`, while no file descriptor is available, so that the
+// intact sidecar cannot be read — and checks what comes back: a failed load is fine, a successful one must show the
+// sidecar's metadata (model: Shard.loadIO, checkLoad) and must not list or return anything tombstoned (Go oracle).
+func (rn *runner) probeLoad(w *world, shard string, exhaust bool, scratch string, after string) {
+	req, _ := json.Marshal(tombReq{Op: "load", Shard: shard, Exhaust: exhaust})
+	reply, _, died, err := rn.probe.Do(string(req), nil)
+	if err != nil || died {
+		panic(fmt.Sprintf("probe child broke: %v", err))
+	}
+	var rep loadReply
+	must(json.Unmarshal([]byte(reply), &rep))
+	base, ok := rn.embedded[shard]
+	if !ok {
+		os.MkdirAll(filepath.Join(scratch, "emb"), 0o755)
+		cp := filepath.Join(scratch, "emb", filepath.Base(shard))
+		b, err := os.ReadFile(shard)
+		must(err)
+		must(os.WriteFile(cp, b, 0o644))
+		os.Remove(cp + ".meta")
+		base, _, err = index.ReadMetadataPath(cp)
+		must(err)
+		os.Remove(cp)
+		rn.embedded[shard] = base
+	}
+	side := "none"
+	var sideRepos []*zoekt.Repository
+	if b, err := os.ReadFile(shard + ".meta"); err == nil && len(b) > 0 {
+		if b[0] == '[' {
+			must(json.Unmarshal(b, &sideRepos))
+		} else {
+			var one zoekt.Repository
+			must(json.Unmarshal(b, &one))
+			sideRepos = []*zoekt.Repository{&one}
+		}
+		side = reposField(sideRepos, rn.names, rn.files)
+	}
+	impl := "res=e"
+	if rep.Err == "" {
+		impl = "res=o repos=" + reposField(rep.Repos, rn.names, rn.files)
+	}
+	class := "reload:sidecar-readable"
+	if exhaust {
+		class = "reload:sidecar-unreadable"
+	}
+	if side == "none" {
+		class += ":no-sidecar"
+	}
+	rn.w.Emit(gen.Case{
+		In:         fmt.Sprintf("loadf %s %s %s", reposField(base, rn.names, rn.files), side, map[bool]string{true: "0", false: "1"}[exhaust]),
+		Impl:       impl,
+		Class:      class,
+		Nontrivial: exhaust && side != "none",
+		Detail:     gen.Detail(map[string]any{"shard": filepath.Base(shard), "exhaust": exhaust, "after": after, "err": rep.Err}),
+	})
+	// Go oracle on what the loaded shard serves
+	verdict, key := "", ""
+	if rep.Err == "" {
+		tombID := func(id uint32) bool { return w.believed[id] }
+		for _, id := range rep.Listed {
+			if tombID(id) {
+				verdict, key = fmt.Sprintf("a shard loaded while its sidecar was unreadable lists the tombstoned repository %d", id), "e2e:reload-shows-tombstoned-repository"
+			}
+		}
+		for _, f := range rep.Files {
+			for _, rp := range w.repos {
+				if rp.name == f[0] && w.believed[rp.id] {
+					verdict, key = fmt.Sprintf("a shard loaded while its sidecar was unreadable returns %s:%s of a tombstoned repository", f[0], f[1]), "e2e:reload-shows-tombstoned-repository"
+				}
+			}
+			for _, h := range w.hiddenBy[f[0]] {
+				if h == f[1] && filepath.Base(shard) == "org%2Fdelta_v16.00000.zoekt" {
+					verdict, key = fmt.Sprintf("a shard loaded while its sidecar was unreadable returns the tombstoned path %s:%s", f[0], f[1]), "e2e:reload-shows-tombstoned-path"
+				}
+			}
+		}
+	}
+	rn.w.Emit(gen.Case{Go: verdict, Key: key, Class: "e2e-" + class, Nontrivial: exhaust && rep.Err == "",
+		Detail: gen.Detail(map[string]any{"shard": filepath.Base(shard), "exhaust": exhaust, "after": after, "err": rep.Err})})
 }
 
 func (rn *runner) docsField(sv *shardView) string {
@@ -906,7 +1047,10 @@ func (rn *runner) runWorld(n int, nOps int, nQueries int) {
 			}
 		}
 		if !sawRename {
-			panic("setTombstone made no rename: " + rep.Err)
+			// the call failed before it got to the rename (the shard, the sidecar or the temp file could not be opened):
+			// for the state machine that is a call whose rename did not happen
+			renameOK = false
+			rn.w.Count("calls-failing-before-the-rename", 1)
 		}
 		if rep.Err == "" {
 			w.believed[id] = set
@@ -925,7 +1069,9 @@ func (rn *runner) runWorld(n int, nOps int, nQueries int) {
 			res = "e"
 		}
 		class := "step:rename-ok"
-		if !renameOK {
+		if !sawRename {
+			class = "step:fails-before-rename"
+		} else if !renameOK {
 			class = "step:rename-fails"
 			rn.w.Count("sidecar-rename-failures", 1)
 		}
@@ -945,6 +1091,11 @@ func (rn *runner) runWorld(n int, nOps int, nQueries int) {
 		})
 		// a term that occurs only in the repository just operated on, and that repository by ID
 		queryAll(opsField(hist), &qn{kind: "sub", pat: fmt.Sprintf("uniq%dtoken", id)}, &qn{kind: "repoids", ids: []uint32{id}})
+		// reloads with and without a sidecar read fault: the compound shard, and the shard with file tombstones
+		for _, sp := range shards {
+			rn.probeLoad(w, sp, true, scratch, opsField(hist))
+		}
+		rn.probeLoad(w, w.compound, false, scratch, opsField(hist))
 	}
 	os.RemoveAll(w.dir)
 }
@@ -1009,10 +1160,13 @@ func main() {
 		wg.Add(1)
 		go func(wk int) {
 			defer wg.Done()
-			// every third sidecar rename of the child fails with EIO
-			child, err := f1util.Start(f1util.Mode{RenameFail: "2+3"}, filepath.Join(root, fmt.Sprintf("child%d.log", wk)), nil, self, "child")
+			// every third sidecar rename of the child fails with EIO, every thirteenth openat with EMFILE (shard, sidecar or temp file)
+			child, err := f1util.Start(f1util.Mode{RenameFail: "2+3", OpenFail: "11+13"}, filepath.Join(root, fmt.Sprintf("child%d.log", wk)), nil, self, "child")
 			must(err)
 			defer child.Close()
+			probe, err := f1util.Start(f1util.Mode{}, filepath.Join(root, fmt.Sprintf("probe%d.log", wk)), nil, self, "child")
+			must(err)
+			defer probe.Close()
 			for i := range jobs {
 				func() {
 					defer func() {
@@ -1024,7 +1178,7 @@ func main() {
 							pmu.Unlock()
 						}
 					}()
-					rn := &runner{w: &sink{}, r: rands[i], root: root, child: child, names: interner{}, files: interner{}, docOrder: map[string][]cdoc{}, worker: wk}
+					rn := &runner{w: &sink{}, r: rands[i], root: root, child: child, names: interner{}, files: interner{}, docOrder: map[string][]cdoc{}, worker: wk, probe: probe, embedded: map[string][]*zoekt.Repository{}}
 					sinks[i] = rn.w
 					rn.runWorld(i, f.N(7, 12), f.N(2, 5))
 				}()
